@@ -54,7 +54,7 @@ def main():
         ],
         "checks": checks,
         "not_applicable": na,
-        "notes": "Single entry point ./check <ID> --tier quick|thorough [--replay file]. Exit 0 held / 1 violation / 2 harness error. known_findings.jsonl lists open and fixed findings. VERIF_SEED only rotates which explored cases are shown as samples and isomorphic constants; the enumerated space is always complete.",
+        "notes": "Single entry point ./check <ID> --tier quick|thorough [--replay file]. Exit 0 held / 1 violation / 2 harness error. known_findings.jsonl lists open and fixed findings. VERIF_SEED only rotates which explored cases are shown as samples and isomorphic constants; the enumerated space is always complete. Besides the small-scope lattices every check enumerates scale ladders (33..1025 notes, tick distances up to 70001, 15..65 bars, pauses up to 300 bars, nesting up to 12), positional families (an insertion / a touching phrase / a note end at EVERY position of a long sequence), carrier types (numpy integer ticks, list arguments as tuple / generator / iterator) and failure paths (rejected calls inside histories); the evidence rule of each check lists them after '|| scale families:'.",
     }
     json.dump(m, open(os.path.join(V, "MANIFEST.json"), "w"), indent=1)
     print(len(checks), "checks;", len(na), "pending")
